@@ -320,6 +320,36 @@ Proof.
   - apply in_map_iff in H as (e & <- & He). destruct (Hb x e He) as (_ & Ho & _). cbn [mkslot sl_order2]. apply Z.eqb_neq. lia.
 Qed.
 
+(* ---------- what the reader reads from the printed string ---------- *)
+Theorem printed_reads out maps : mol_to_smiles m = Ok (out, maps) ->
+  exists ord, NoDup ord /\ (forall j, In j ord <-> (j < natoms m)%nat) /\
+    read_smiles out = Some {| sm_atoms := map (aat m) ord; sm_nbrs := map (frow m ord) ord |}.
+Proof.
+  intro E. unfold mol_to_smiles in E.
+  destruct (write_roots m (roots m) [] 0) as [[frags maps']|] eqn:Ew; cbn [bind] in E; [|discriminate]. inversion E; subst out maps'; clear E.
+  destruct (write_roots_wroots m _ _ _ _ _ Ew) as (evss & logf & Ewr & ->).
+  destruct (wroots_rtoks m _ _ _ _ Ewr) as (_ & ts & Ert).
+  destruct (read_graph m Hb Hnd Hsym HT Hadj ts logf Ert) as (st' & ord & Es & Q & S & O & At & Rows & Hndo & Hord & _ & Hkeys & Hndl).
+  (* fewer than 100 labels *)
+  assert (Hlog : (length logf < 100)%nat).
+  { apply Nat.le_lt_trans with (length ring_pairs); [|exact Hrings]. apply NoDup_incl_length; [exact Hndl|].
+    intros key Hk. destruct (Hkeys key Hk) as (x & e & He & Hr & ->). unfold ring_pairs. apply nodup_In. apply in_flat_map. exists x. split.
+    - apply in_seq. destruct (Nat.lt_ge_cases x (natoms m)) as [L|L]; [lia|]. unfold row in He. rewrite nth_overflow in He by lia. destruct He.
+    - apply in_map_iff. exists e. split; [reflexivity|]. apply filter_In. auto. }
+  assert (Hatoms : forall i a c at_, nth_error (atoms m) i = Some (a, c, at_) -> AtomShape a).
+  { intros i a c at_ Ei. destruct (wf_atoms _ _ _ HG i a c at_ Ei) as (_ & _ & _ & Sh). exact Sh. }
+  assert (Hbonds : forall i bonds e, nth_error (adj m) i = Some bonds -> In e bonds -> 1 <= b_order e <= 3).
+  { intros i bonds e Ei He. assert (bonds = row m i) by (unfold row; symmetry; now apply nth_error_nth). subst. now apply (Hb i e). }
+  destruct (wroots_lex m Hatoms Hbonds _ _ _ _ Ewr Hlog) as (ts' & Ert' & [_ PL]). rewrite Ert in Ert'. inversion Ert'; subst ts'; clear Ert'.
+  pose proof (PL [] [] I lexes_nil) as Lx. rewrite !app_nil_r in Lx. change (lit ".") with [46%N] in Lx.
+  exists ord. split; [exact Hndo|]. split; [exact Hord|].
+  unfold read_smiles. rewrite (lexes_read _ _ Lx).
+  destruct (rtoks_chk m _ _ _ _ Ert) as [Hchk _]. unfold chk in Hchk. rewrite Hchk. cbn [negb].
+  change {| r_atoms := []; r_nbrs := []; r_prev := None; r_stack := []; r_pend := None; r_open := [] |} with init_state.
+  rewrite Es, Q, S, O, Rows, At.
+  reflexivity.
+Qed.
+
 (* ---------- C01, the printed string ---------- *)
 Theorem printed_valid out maps : mol_to_smiles m = Ok (out, maps) -> valid_smiles_under T out = true.
 Proof.
